@@ -40,6 +40,11 @@ func (h *RefreshFunc) Final(ctx *sqlite.AggregateContext) {
 		ctx.ResultError(fmt.Errorf("table not found: %s", fCtx.tableName))
 		return
 	}
+	if vt.InTransaction() {
+		// re-opening the table would drop the transaction's uncommitted writes
+		ctx.ResultError(fmt.Errorf("refresh: table %s has a transaction in progress", fCtx.tableName))
+		return
+	}
 	nt, err := s3db.OpenKV(h.sc.ctx, vt.S3Options, "s3db-rows")
 	if err != nil {
 		ctx.ResultError(fmt.Errorf("open: %w", err))
